@@ -171,6 +171,27 @@ theorem blocks_storedBlocks : ∀ (fuelS : Nat) (data tail : Bytes) (out : Array
       apply Array.ext'
       simp
 
+theorem adler_fold_lt (data : Bytes) : ∀ (p : Nat × Nat), p.1 < 65521 → p.2 < 65521 →
+    (data.foldl adlerStep p).1 < 65521 ∧ (data.foldl adlerStep p).2 < 65521 := by
+  induction data with
+  | nil => intro p h1 h2; exact ⟨h1, h2⟩
+  | cons x xs ih =>
+    intro p h1 h2
+    simp only [List.foldl_cons]
+    exact ih _ (Nat.mod_lt _ (by omega)) (Nat.mod_lt _ (by omega))
+
+theorem adler32_lt (data : Bytes) : adler32 data < 4294967296 := by
+  unfold adler32
+  have := adler_fold_lt data (1, 0) (by omega) (by omega)
+  omega
+
+/-- the four big-endian trailer bytes denote the checksum -/
+theorem be32_value (a : Nat) (h : a < 4294967296) :
+    (UInt8.ofNat (a / 16777216 % 256)).toNat * 16777216 + (UInt8.ofNat (a / 65536 % 256)).toNat * 65536
+      + (UInt8.ofNat (a / 256 % 256)).toNat * 256 + (UInt8.ofNat (a % 256)).toNat = a := by
+  simp only [ofNat_toNat_mod]
+  omega
+
 /-- **`inflate ∘ deflate = id` for the stored-block encoder — every byte string, no size bound.** -/
 theorem zlib_stored_rt (x : Bytes) : zlibInflate (zlibStored x) = some x := by
   unfold zlibStored zlibInflate
@@ -189,7 +210,16 @@ theorem zlib_stored_rt (x : Bytes) : zlibInflate (zlibStored x) = some x := by
       have := storedBlocks_length (x.length + 1) x (by omega)
       omega)
   simp only [hb, Option.map_some]
-  simp
+  have hal : alignDrop (bitsOf [UInt8.ofNat (adler32 x / 16777216 % 256), UInt8.ofNat (adler32 x / 65536 % 256), UInt8.ofNat (adler32 x / 256 % 256), UInt8.ofNat (adler32 x % 256)])
+      = bitsOf [UInt8.ofNat (adler32 x / 16777216 % 256), UInt8.ofNat (adler32 x / 65536 % 256), UInt8.ofNat (adler32 x / 256 % 256), UInt8.ofNat (adler32 x % 256)] := by
+    unfold alignDrop
+    rw [bitsOf_length]
+    simp only [List.length_cons, List.length_nil]
+    rfl
+  have hrd := readBytes_bytes [UInt8.ofNat (adler32 x / 16777216 % 256), UInt8.ofNat (adler32 x / 65536 % 256), UInt8.ofNat (adler32 x / 256 % 256), UInt8.ofNat (adler32 x % 256)] []
+  simp only [List.append_nil, List.length_cons, List.length_nil] at hrd
+  have hx : (#[] ++ x.toArray : Array UInt8).toList = x := by simp
+  simp only [hal, hrd, hx, be32_value (adler32 x) (adler32_lt x), true_or, if_true]
 
 /- the guard of the header test is exactly RFC 1950's: 0x78 0x01 passes, a wrong FCHECK does not -/
 example : zlibInflate [0x78, 0x02, 1, 0, 0, 255, 255] = none := by decide
